@@ -535,10 +535,14 @@ async def case_pump(spec: dict[str, Any], ctx: Ctx) -> None:
     try:
         conn = await open_conn(env, 'auth', 1)
         assert conn is not None
-        value = gen.PUMP_PREFIXES[spec['p']] + \
-            gen.PUMP_UNITS[spec['u']] * spec['n'] + gen.PUMP_TAILS[spec['t']]
-        msg = b'X-VF-ID: c06\r\n' + gen.PUMP_HEADERS[spec['h']] + b': ' + \
-            value + b'\r\n\r\nbody\r\n'
+        if 'deep' in spec:
+            msg = gen.deep_mime(spec['deep'], spec['mime'])
+        else:
+            value = gen.PUMP_PREFIXES[spec['p']] + \
+                gen.PUMP_UNITS[spec['u']] * spec['n'] + \
+                gen.PUMP_TAILS[spec['t']]
+            msg = b'X-VF-ID: c06\r\n' + gen.PUMP_HEADERS[spec['h']] + \
+                b': ' + value + b'\r\n\r\nbody\r\n'
         res = await send_line(ctx, conn, b'ap APPEND INBOX ' + lit(msg) +
                               b'\r\n', 'APPEND of %r' % msg[:400])
         if res != 'answered':
@@ -547,7 +551,13 @@ async def case_pump(spec: dict[str, Any], ctx: Ctx) -> None:
         for k, body in enumerate([
                 b'SELECT INBOX', b'FETCH 1 (ENVELOPE BODYSTRUCTURE)',
                 b'SEARCH SUBJECT x FROM y HEADER ' +
-                gen.PUMP_HEADERS[spec['h']] + b' z TEXT w']):
+                gen.PUMP_HEADERS[spec.get('h', 0)] + b' z TEXT w'] + ([
+                    b'FETCH 1 (BODY)', b'FETCH 1 (BODY.PEEK[1.1.1.1])',
+                    b'FETCH 1 (BODY.PEEK[1.1.HEADER] BODY.PEEK[1.MIME])',
+                    b'FETCH 1 (BINARY.PEEK[1] RFC822.SIZE)',
+                    b'SEARCH BODY leaf', b'COPY 1 INBOX',
+                    b'FETCH 1:* (BODYSTRUCTURE)']
+                    if 'deep' in spec else [])):
             if conn.dead:
                 return
             res = await send_line(
@@ -647,6 +657,12 @@ class C06(Check):
     def cases(self, tier: str, seed: int) -> Iterable[dict[str, Any]]:
         n = 3000 if tier == "quick" else 60000
         rng = random.Random(seed * 7177 + 6)
+        # really nested MIME, around and beyond what recursion survives
+        for depth in (8, 31, 32, 33, 64, 150, 280, 400, 1200):
+            for mime in ('multipart', 'rfc822', 'mixed'):
+                for backend in ('dict', 'maildir'):
+                    yield {'kind': 'pump', 'deep': depth, 'mime': mime,
+                           'backend': backend, 'seed': seed}
         # pumped header values, enumerated (the tail varies with the seed)
         k = 0
         for h in range(len(gen.PUMP_HEADERS)):
